@@ -117,6 +117,7 @@ type FuncCtx struct {
 	name     string // short qualified name, e.g. ring.MRed
 	obls     []*Obligation
 	ranges   map[string][2]*big.Int
+	inlineDepth int
 	expandQuant bool // replay: forall over concrete bounds is expanded into ground instances
 	fresh    int
 	entry    *State
